@@ -199,6 +199,7 @@ def run_C02(ctx):
     cases.extend(threshold_text_cases(ctx))
     cases.extend(threshold_deadline_cases(ctx))
     C.evaluate(ctx, "textdiff-ops", textdiff_lines(ctx, cases), rel, nontrivial=nontrivial_text, cap=60)
+    C.evaluate(ctx, "textdiff-65536-distinct", huge_distinct_cases(ctx), rel, x=False, cap=300, nontrivial=nontrivial_text)
 
 
 SPECS["C02"] = dict(
@@ -208,7 +209,10 @@ SPECS["C02"] = dict(
         note='Trusted: Coq 8.16.1 kernel; extraction with ExtrOcamlBasic only; OCaml driver and Rust harness glue; the tie of the hand-written model to /repo is the correspondence check (differential testing on the generated inputs, rebuilt from the working tree every run), not a proof about the Rust source. usize wrap-around is not modelled.',
         technique='Coq proof of the whole capture pipeline + correspondence + verified checker on implementation output',
     ),
-    relevant=lambda comp, kv: {"no_panic", "ops_loose", "ratio_range", "identical_only_equal"},
+    # text diffs: "applying the ops to old yields new" is also read off the expanded changes (linear, so it is
+    # evaluated on the very large cases too, where the unary-number walk is skipped)
+    relevant=lambda comp, kv: {"no_panic", "ops_loose", "ratio_range", "identical_only_equal"} | (
+        {"reconstruct_old", "reconstruct_new", "change_index_shape"} if comp == "textdiff" else set()),
     run=run_C02,
     generators="capture component (capture_diff_deadline + get_diff_ratio): the exhaustive small worlds of C01 with all "
                "sub-ranges; structured random pairs; and for every binary pair up to length 3/4 and random pairs up to "
@@ -341,7 +345,8 @@ def run_C07(ctx):
             texts.append(("".join(chr(97 + x % 26) for x in a), "".join(chr(97 + x % 26) for x in b)))
     for o, n in texts:
         for alg in ALGS:
-            for entry in ("timeout", "timeout_reuse", "timeout_clone", "deadline", "capture", "capture_slices",
+            for entry in ("timeout", "timeout_reuse", "timeout_clone", "deadline_then_timeout", "timeout_then_deadline",
+                          "deadline", "capture", "capture_slices",
                           "algo", "algo_slices", "inline"):
                 if entry == "inline" and "\n" not in o:
                     continue
@@ -358,7 +363,7 @@ def relevant_C07(comp, kv):
 SPECS["C07"] = dict(
     level="proof",
     manifest=dict(
-        text="Machine-checked theorems (Props/C07.v, closed under the global context): the validity and completion theorems of C01 hold for EVERY clock, i.e. whichever probe the deadline expires at (Myers: the snake answers None only after a probe answered true and conquer then emits one delete and one insert; LCS: the table is abandoned and the tail emits the remaining delete/insert), with finish exactly once and last. A deadline that never expires gives exactly the result of no deadline: proved for raw traces, capture_diff and text diffs of all three algorithms with no premise at all (c07_never_expire_*, from a generic parametricity theorem c07_alg_parametric: two hook/clock worlds that answer alike make every algorithm run alike, including equal panics). After expiry at most N+M (Myers), 0 (LCS), 2(N+M)+1 (Patience) further comparisons are made, for every monotone clock (c07_post_expiry_bound; the harness clock is monotone: c07_clock_at_mono); the harness counts them on the real crate through the cfg(similar_verif) clock, compares the count with the model and checks the proved bounds. By nature checked on the real code only: the plumbing: probe counts compared with the model, and the deadline VALUE that reaches deadline_exceeded (hook) must be the configured instant, or diff start + timeout, through nine entry points.",
+        text="Machine-checked theorems (Props/C07.v, closed under the global context): the validity and completion theorems of C01 hold for EVERY clock, i.e. whichever probe the deadline expires at (Myers: the snake answers None only after a probe answered true and conquer then emits one delete and one insert; LCS: the table is abandoned and the tail emits the remaining delete/insert), with finish exactly once and last. A deadline that never expires gives exactly the result of no deadline: proved for raw traces, capture_diff and text diffs of all three algorithms with no premise at all (c07_never_expire_*, from a generic parametricity theorem c07_alg_parametric: two hook/clock worlds that answer alike make every algorithm run alike, including equal panics). After expiry at most N+M (Myers), 0 (LCS), 2(N+M)+1 (Patience) further comparisons are made, for every monotone clock (c07_post_expiry_bound; the harness clock is monotone: c07_clock_at_mono); the harness counts them on the real crate through the cfg(similar_verif) clock, compares the count with the model and checks the proved bounds. By nature checked on the real code only: the plumbing: probe counts compared with the model, and the deadline VALUE that reaches deadline_exceeded (hook) must be the configured instant, or diff start + timeout, through eleven entry points / setter orders.",
         note='Trusted: Coq 8.16.1 kernel; extraction with ExtrOcamlBasic only; OCaml driver and Rust harness glue; the tie of the hand-written model to /repo is the correspondence check (differential testing on the generated inputs, rebuilt from the working tree every run), not a proof about the Rust source. usize wrap-around is not modelled.',
         technique='Coq proof over all clocks + fault enumeration of every expiry point k on the real code via the virtual-clock hook + verified checker',
     ),
@@ -1100,6 +1105,29 @@ def run_C05(ctx):
         ctx.count("udiff:bytes", 4)
     C.evaluate(ctx, "corpus", corpus_lines({"udiff"}), rel, nontrivial=lambda comp, kv, impl: impl != "out=-")
     C.evaluate(ctx, "udiff", lines, rel, nontrivial=lambda comp, kv, impl: impl.split(" ")[0] != "out=-")
+    # very long lines (around typical buffer sizes), with and without terminator, inside hunks.  The unary-number
+    # model is cubic in the line length: model comparison up to 4096 bytes, verified parser + applier beyond
+    big_x, big_k = [], []
+    for L in tiered(ctx, [2048, 8192, 8193], [1023, 1024, 4095, 4096, 8191, 8192, 8193, 16384, 20000]):
+        long1 = bytes(97 + (i * 7) % 26 for i in range(L - 1))
+        long2 = bytes(97 + (i * 11) % 26 for i in range(L - 1))
+        for o, n in ((b"a\nb\n" + long1 + b"\nc\n", b"a\nB\n" + long1 + b"\nc\nd\n"),
+                     (b"a\n" + long1 + b"\nz\n", b"a\n" + long2 + b"\nz"),
+                     (b"x\n" + long1, b"x\n" + long2 + b"\n"),
+                     (long1 + b"\n", long1 + b"\n" + long2 + b"\n")):
+            alg = ctx.rng.choice(ALGS)
+            tgt = big_x if L <= 4096 else big_k
+            vias = ("display", "writer", "hunks", "writer1")
+            if ctx.tier == "quick":
+                vias = (ctx.rng.choice(["writer", "hunks"]), ctx.rng.choice(["display", "writer1"]))
+            for via in vias:
+                tgt.append(udiff_line(alg, "bytes", ctx.rng.choice([0, 1, 3]), ctx.rng.randrange(2), 1, via, o, n))
+            if ctx.tier != "quick":
+                tgt.append(udiff_line(alg, "str", 3, 1, 1, "writer", o, n))
+            ctx.count("udiff:very-long-lines", len(vias))
+    nt = lambda comp, kv, impl: impl.split(" ")[0] != "out=-"
+    C.evaluate(ctx, "udiff-long-lines", big_x, rel, cap=300, nontrivial=nt)
+    C.evaluate(ctx, "udiff-longer-lines", big_k, rel, x=False, cap=600, nontrivial=nt)
 
 
 SPECS["C05"] = dict(
@@ -1115,7 +1143,7 @@ SPECS["C05"] = dict(
     generators="udiff component: random line texts over small line alphabets (LF/CRLF/CR, missing final newline, empty) "
                "and their edits, in byte mode also invalid UTF-8; algorithm, radius in {0,1,2,3,5}, header on/off, "
                "hint on/off; rendered through Display, UnifiedDiff::to_writer, per-hunk to_writer and "
-               "udiff::unified_diff.  The rendered text is parsed (strictly) and applied by the extracted check_patch",
+               "udiff::unified_diff; lines of 2048, 8192, 8193 (thorough: 1023..20000) bytes inside hunks.  The rendered text is parsed (strictly) and applied by the extracted check_patch",
 )
 
 
@@ -1396,7 +1424,8 @@ def run_C18(ctx):
             b = f32_bits(r)
             cut.update({b, b + 1, max(0, b - 1)})
         for cb in ctx.rng.sample(sorted(cut), min(len(cut), 4)):
-            n = ctx.rng.choice([0, 1, 3, 100])
+            # n: none, one, a few, more than there are candidates, and the "all of them" sentinels
+            n = ctx.rng.choice([0, 1, 3, 100, 100, 2 ** 32, 2 ** 63, 2 ** 64 - 1])
             lines.append("close word=%s cands=%s n=%d cutoff=%d" % (
                 gen.hx(word.encode()), "|".join((gen.hx(c.encode()) if c else "e") for c in cands) or "-", n, cb))
             ctx.count("close:cases")
@@ -1411,7 +1440,7 @@ def run_C18(ctx):
 SPECS["C18"] = dict(
     level=("proof" if __import__("os").path.exists(__import__("os").path.join(C.VERIF, "coq", "Props", "C18.v")) else "translation_validation"),
     manifest=dict(
-        text="Machine-checked theorems (Props/C18.v): for ANY monotone rounding of the exact ratio and any monotone heap key, the two pre-filters never discard a candidate that meets the cutoff (their rational bounds dominate the ratio) and the result is the first n of the qualifying candidates sorted by decreasing key, ties lexicographic, whatever the heap does (closed under the global context); ordered by decreasing RATIO under the premise that the key separates the occurring ratios, which fails only below 2^-9 (known finding F9). The binary32 instance is proved with Flocq: the expression as the crate writes it, rounding after every operation, is monotone, and so is the u32 key (c18_*_binary32; these rest on the standard library real-number axioms, named in the evidence). The run-time check recomputes every candidate's ratio with the extracted lcs_len as binary32(binary64(2L)/binary64(N+M)), proved equal to the crate's expression for lengths below 2^24 (c18_driver_ratio_eq, double rounding), and compares the result with the exhaustive ranking on words with mixed-width characters, duplicates, empty strings, n in {0,1,3,100} and cutoffs at, just below and just above every ratio value.",
+        text="Machine-checked theorems (Props/C18.v): for ANY monotone rounding of the exact ratio and any monotone heap key, the two pre-filters never discard a candidate that meets the cutoff (their rational bounds dominate the ratio) and the result is the first n of the qualifying candidates sorted by decreasing key, ties lexicographic, whatever the heap does (closed under the global context); ordered by decreasing RATIO under the premise that the key separates the occurring ratios, which fails only below 2^-9 (known finding F9). The binary32 instance is proved with Flocq: the expression as the crate writes it, rounding after every operation, is monotone, and so is the u32 key (c18_*_binary32; these rest on the standard library real-number axioms, named in the evidence). The run-time check recomputes every candidate's ratio with the extracted lcs_len as binary32(binary64(2L)/binary64(N+M)), proved equal to the crate's expression for lengths below 2^24 (c18_driver_ratio_eq, double rounding), and compares the result with the exhaustive ranking on words with mixed-width characters, duplicates, empty strings, n in {0,1,3,100,2^32,2^63,usize::MAX} and cutoffs at, just below and just above every ratio value.",
         note='Trusted: Coq 8.16.1 kernel; extraction with ExtrOcamlBasic only; OCaml driver and Rust harness glue; the tie of the hand-written model to /repo is the correspondence check (differential testing on the generated inputs, rebuilt from the working tree every run), not a proof about the Rust source. usize wrap-around is not modelled.',
         technique='Coq proof over an abstract monotone rounding + Flocq binary32 instance + verified-optimum checker and exhaustive-ranking oracle on implementation output',
     ),
